@@ -21,9 +21,10 @@ EXPLANATION = (
     'session functions being discharged by the evaluated tables. (R6) no wait-for cycle between the store actor and the '
     "live actor (effect analysis over the call graph): the store actor awaits sends into the live actor's replica-event "
     'queue while handling a sync message, the live actor empties that queue only in its main loop and awaits replies of the'
-    " store actor in its handlers - so the queue must not be bounded. NOT decided: 'never waits forever' when a future "
-    'never completes (liveness), QUIC stream behaviour, mirrored counters as values, interleaving with other actor '
-    'messages.'
+    " store actor in its handlers - so the queue must not be bounded. (R7) every return of the store actor's loop function "
+    'is dominated by closing and draining its inbox, so that no request accepted into it is left unanswered when the actor '
+    "stops. NOT decided: 'never waits forever' when a future never completes (liveness), QUIC stream behaviour, mirrored "
+    'counters as values, interleaving with other actor messages.'
 )
 ASSUMPTIONS = ["tokio_util FramedRead/FramedWrite and the QUIC streams are trusted", "the object invariant 'progress is Some' holds when a BobState is created (checked: BobState::new)"]
 
@@ -441,9 +442,47 @@ def r6(ctx):
     ctx.floor("C10.R6", 2)
 
 
+def r7(ctx):
+    """the store actor stops: nobody may be left waiting on a request it accepted into its inbox. Every return of the actor's
+    loop function is dominated by closing the inbox and draining it (dropping a queued action drops the reply channel inside
+    it, so its caller gets an error; async_channel keeps queued messages alive while any sender - the waiting caller's own
+    handle - exists, so dropping the receiver alone answers nobody)."""
+    f = ctx.facts
+    top = f.body("actor::Actor::run_async")
+    b = f.bodies.get(top.path + "::{closure#0}") if top.rec.get("is_async") else top
+    b = b or top
+    fam = f.scope(top.path, prefix="actor::Actor::")
+    ctx.touch(*fam)
+    rets = [bi for bi, blk in enumerate(b.blocks) if blk["t"]["k"] == "return"]
+
+    def on_inbox(t):
+        return "async_channel::Receiver" in (t["f"].get("path") or "") and "actor::Action" in (t["f"].get("full") or "")
+    # the calls may sit in the loop function itself or in a private helper it calls: judged at the call site in the loop function
+    def sites(name):
+        out = []
+        for bi, t in b.calls():
+            if t["f"].get("name") == name and on_inbox(t):
+                out.append(bi)
+            else:
+                for p_ in mir.callee_paths(t):
+                    hb = f.bodies.get(p_)
+                    if hb is not None and p_.startswith("actor::") and any(t2["f"].get("name") == name and on_inbox(t2) for x in f.family(p_) for _, t2 in x.calls()):
+                        out.append(bi)
+        return out
+    closes, drains = sites("close"), sites("try_recv")
+    ok_close = bool(rets) and bool(closes) and all(any(b.dominates(c, r_) for c in closes) for r_ in rets)
+    ok_drain = bool(rets) and bool(drains) and all(any(b.dominates(d, r_) for d in drains) for r_ in rets) and any(b.dominates(c, d) or c == d for c in closes for d in drains)
+    ctx.check(ok_close and ok_drain, "C10.R7", top.path, "inbox-closed-and-drained-before-the-actor-stops",
+              "%d return(s); Receiver<Action>::close at %d site(s), try_recv at %d site(s); every return dominated by close: %s, by a drain after the close: %s "
+              "(a request queued behind Shutdown - e.g. the next message of a running sync session - is otherwise never answered: its caller waits forever)"
+              % (len(rets), len(closes), len(drains), ok_close, ok_drain), top.sp)
+    ctx.floor("C10.R7", 1)
+
+
 def run(ctx):
     ctx.run_rule("C10.R1", r1)
     ctx.run_rule("C10.R2", r2)
     ctx.run_rule("C10.R4", r4)
     ctx.run_rule("C10.R5", r5)
     ctx.run_rule("C10.R6", r6)
+    ctx.run_rule("C10.R7", r7)
